@@ -62,7 +62,12 @@ I128Set == { x \in ( UNION { Around(B!MulInt(NPC, k), Near) : k \in {-32769, -32
                      \cup { B!Pow2(100), B!Neg(B!Pow2(100)), B!Pow2(80), B!Neg(B!Pow2(80)) } )
                : B!Le(I128MIN, x) /\ B!Le(x, I128MAX) }
 
-All == [ cents |-> SetToSeq(Cents),
+(* the leap second table and the zero instants of the scales as derived in Real.tla from calendar dates: *)
+(* the literal copies that Apalache needs (spec/apalache/APA_Scales.tla) are compared with these          *)
+R == INSTANCE Real
+All == [ leap  |-> [i \in 1..Len(R!LeapR) |-> <<R!LeapR[i][1].m, R!LeapR[i][2].m>>],
+         refs  |-> [i \in 1..9 |-> R!RefR[i - 1]],
+         cents |-> SetToSeq(Cents),
          nanos |-> SetToSeq({ n.m : n \in NanoSet }),
          i64   |-> SetToSeq(I64Set),
          i128  |-> SetToSeq(I128Set) ]
